@@ -52,19 +52,30 @@ Section Step.
     apply shl_shr_le; lia.
   Qed.
 
+  (* width of the window advertised last, counted from RCV.NXT (model values only, no ghost) *)
+  Definition adv_width (s : socket) : Z := seq_sdiff (tcp_window_end s) (tcp_window_start s).
+
+  (* nothing at or beyond the advertised right edge is written into the ring *)
+  Definition beyond_untouched (s' s : socket) : Prop :=
+    forall i, rb_len (s_rx_buffer s) + adv_width s <= i < rb_cap (s_rx_buffer s) ->
+              rb_cell (s_rx_buffer s') i = rb_cell (s_rx_buffer s) i.
+
   (* --- one segment on a synchronised socket --- *)
   Theorem process_synced have irs c s cx ip r s' rep tags :
     rx_synced S F have irs c s -> seg_ok S F c s r ->
     tcp_process cx s ip r = Ok (s', rep, tags) ->
     reply_ok s' rep /\
-    (rx_synced S F (have_seg have c s r) irs c s' \/ (rx_unsynced s' /\ s_state s' = Listen)).
+    (rx_synced S F (have_seg have c s r) irs c s' \/ (rx_unsynced s' /\ s_state s' = Listen)) /\
+    beyond_untouched s' s.
   Proof.
     intros Hinv Hseg H.
     assert (Hmono : forall k, have k -> have_seg have c s r k) by (intros k Hk; left; exact Hk).
     assert (Hret : forall s1 rp, same_or_acked s1 s rp ->
-              reply_ok s1 rp /\ (rx_synced S F (have_seg have c s r) irs c s1 \/ (rx_unsynced s1 /\ s_state s1 = Listen))).
+              reply_ok s1 rp /\ (rx_synced S F (have_seg have c s r) irs c s1 \/ (rx_unsynced s1 /\ s_state s1 = Listen)) /\
+              beyond_untouched s1 s).
     { intros s1 rp Hsa. destruct (same_or_acked_synced have irs c s1 s rp Hsa Hinv) as (H1 & H2).
-      split; [exact H2|]. left. eapply rx_synced_mono; eassumption. }
+      split; [exact H2|]. split; [left; eapply rx_synced_mono; eassumption|].
+      intros i _. destruct Hsa as (_ & [(_ & -> & _) | (_ & -> & _)] & _); reflexivity. }
     unfold tcp_process in H. destruct (tcp_accepts s ip r); cbn [negb] in H; [|discriminate].
     apply obind_ok_inv in H. destruct H as (p1 & Hp1 & H).
     destruct p1 as [t1 []|t1 s1 rep1].
@@ -121,6 +132,7 @@ Section Step.
           destruct Hv as [Hv|Hv]; [left; eapply rxv_eq_trans; eassumption
                                   | right; eapply rxv_acked_of_eq; eassumption].
         - split; [exact I|]. pose proof (rxv_eq_trans _ _ _ He (proj1 Hf2)) as He'.
+          split; [|intros i _; destruct He' as (_ & -> & _); reflexivity].
           destruct Hstate as [Hcl | (Hli & Hsr)].
           + left. eapply rx_synced_mono; [exact Hmono|].
             eapply rx_synced_view; [exact He' | unfold st_ok; rewrite Hcl; exact I | exact Hinv].
@@ -185,9 +197,16 @@ Section Step.
       assert (0 < n) by (unfold trim_len in Hpl; lia).
       specialize (HFseg ltac:(lia) f Hf). subst off. rewrite Hpl. unfold trim_off, trim_len. lia. }
     specialize (Hps HFp Hp8).
-    destruct Hps as (s8' & rep8' & t8' & Heq & P1 & P2 & P3 & P4 & P5 & P6 & P7 & P8 & P9 & P10 & P11).
+    destruct Hps as (s8' & rep8' & t8' & Heq & P1 & P2 & P3 & P4 & P5 & P6 & P7 & P8 & P9 & P10 & P11 & P12).
     inversion Heq; subst s8' rep8' t8'; clear Heq.
-    split; [exact P8|]. left.
+    split; [exact P8|]. split.
+    2:{ intros i Hi.
+        assert (HadvW : adv_width s = W).
+        { unfold adv_width. rewrite Hws, Hwe. rewrite seq_sdiff_norm; unfold p30 in *; lia. }
+        rewrite HadvW in Hi.
+        assert (off + l_len payload <= W) by (subst off; rewrite Hpl; unfold trim_off, trim_len; lia).
+        apply P12; lia. }
+    left.
     (* assemble the invariant of the final state *)
     pose proof (b2z_range (s_rx_fin_received s)) as Hfr.
     assert (Hcap8 : rb_cap (s_rx_buffer s8) = rb_cap (s_rx_buffer s)) by congruence.
@@ -256,7 +275,7 @@ Section Step.
         destruct Hfz8 as (Hz1 & Hz2). split; [lia|]. split; [lia|].
         pose proof (l_len_nonneg payload) as Hpl0. fold (finz s) in Hfr.
         destruct Q4 as [Q4 | (Q4a & Q4b)]; rewrite ?Q4, ?Q4b; lia.
-      + unfold st_ok. rewrite P1, Vst. unfold after_table_state in Hats. destruct (s_state s3); tauto.
+      + unfold st_ok. rewrite P1, Vst. unfold after_table_state in Hats. destruct (s_state s3); first [exact I | destruct Hats].
     - (* ACK emitted *)
       destruct (scaled_window_ok s8 Hwf8 ltac:(rewrite Hshift8; exact Hm2)) as (Hsw0 & Hsw1).
       assert (Hws8 : tcp_window_start s8 = seq_norm (irs + 1 + wsq c s8)).
@@ -270,6 +289,6 @@ Section Step.
         assert (Hsh8 : 0 <= s_remote_win_shift s8) by (rewrite Hshift8; exact Hm2).
         pose proof (shl_nonneg _ _ Hsw0 Hsh8).
         lia.
-      + unfold st_ok. rewrite P1, Vst. unfold after_table_state in Hats. destruct (s_state s3); tauto.
+      + unfold st_ok. rewrite P1, Vst. unfold after_table_state in Hats. destruct (s_state s3); first [exact I | destruct Hats].
   Qed.
 End Step.
